@@ -95,6 +95,10 @@ type xdsClient struct {
 	permuted    bool // dependents were requested before their roots on the current stream
 	cdsSeen     bool // a cluster response was accepted on the current stream
 	warmPending bool // the re-request after the first cluster response has not been answered yet
+	// lateRoots: with permuted order, the root subscriptions (CDS, LDS) start only after the first response to a
+	// dependent request was acknowledged (e.g. a statically configured EDS cluster is initialised before CDS)
+	lateRoots   bool
+	rootsQueued []string // root types still to be requested on this stream
 }
 
 func newXdsClient(name string, node *core.Node, delta bool, roots []string) *xdsClient {
@@ -290,6 +294,18 @@ func (c *xdsClient) sotwRequest(t string) *discovery.DiscoveryRequest {
 
 func (c *xdsClient) enqueue(m proto.Message) { c.outq = append(c.outq, m) }
 
+// startLateRoots queues the root requests that were held back (lateRoots), after an acknowledgement.
+func (c *xdsClient) startLateRoots() {
+	for _, t := range c.rootsQueued {
+		if c.delta {
+			c.enqueue(c.deltaInitial(t))
+		} else {
+			c.enqueue(c.sotwRequest(t))
+		}
+	}
+	c.rootsQueued = nil
+}
+
 // startStream queues what the client sends on a new stream: a request per root type, and (reconnect)
 // per dependent type it still has names for, carrying the retained version, nonce and names.
 func (c *xdsClient) markAnswered(t string, names ...string) {
@@ -338,7 +354,11 @@ func (c *xdsClient) startStream(permuteDeps bool) {
 			deps = append(deps, t)
 		}
 	}
-	if permuteDeps {
+	c.rootsQueued = nil
+	if permuteDeps && c.lateRoots && contains(deps, v3.EndpointType) { // endpoint requests are always answered
+		c.rootsQueued = order
+		order = deps
+	} else if permuteDeps {
 		order = append(deps, order...) // e.g. EDS before CDS
 	} else {
 		// Envoy order: CDS, EDS, LDS, RDS
@@ -443,6 +463,7 @@ func (c *xdsClient) onSotwResponse(step int, resp *discovery.DiscoveryResponse) 
 		s.order = append(s.order, r.name)
 	}
 	c.enqueue(c.sotwRequest(t)) // ACK
+	c.startLateRoots()
 	if t == v3.EndpointType && c.cdsSeen {
 		c.warmPending = false
 	}
@@ -558,6 +579,7 @@ func (c *xdsClient) onDeltaResponse(step int, resp *discovery.DeltaDiscoveryResp
 		delete(s.held, n)
 	}
 	c.enqueue(&discovery.DeltaDiscoveryRequest{TypeUrl: t, ResponseNonce: resp.Nonce})
+	c.startLateRoots()
 	if c.deriveDeps {
 		switch t {
 		case v3.ClusterType:
